@@ -50,6 +50,55 @@ pub struct K17 {
     /// now and then to the ends of the earth
     #[serde(default)]
     pub gpsd: Option<(bool, Vec<(u64, f64, f64)>)>,
+    /// `--airports <file>`: (kind of file the option names, `--airports-tz-filter`)
+    #[serde(default)]
+    pub airports: Option<(String, Option<String>)>,
+}
+
+/// kinds of `--airports` arguments; the first three are files radar can use
+pub const AIRPORT_KINDS: [&str; 9] = ["valid", "valid", "empty", "header_only", "missing", "directory", "malformed_number", "short_row", "not_utf8"];
+
+fn airports_is_usable(kind: &str) -> bool {
+    matches!(kind, "valid" | "empty" | "header_only")
+}
+
+/// writes the file the scenario names into the child's working directory; returns the argument
+fn prepare_airports(kind: &str, rx: (f64, f64)) -> String {
+    let dir = super::pty::workdir();
+    let path = dir.join("airports.csv");
+    let _ = std::fs::remove_file(&path);
+    let header = "\"icao\",\"iata\",\"name\",\"city\",\"subd\",\"country\",\"elevation\",\"lat\",\"lon\",\"tz\"\n";
+    let row = |i: usize, lat: &str, lon: &str, tz: &str| format!("\"K{i:03}\",\"A{i:02}\",\"Field {i}\",\"Town\",\"State\",\"US\",{}.0,{lat},{lon},\"{tz}\"\n", 100 * i);
+    let near = |i: usize| (format!("{:.4}", rx.0 + 0.1 * i as f64 - 0.2), format!("{:.4}", rx.1 - 0.15 * i as f64 + 0.2));
+    let body: Vec<u8> = match kind {
+        "valid" => {
+            let mut t = header.to_string();
+            for (i, tz) in ["America/New_York", "America/Chicago", "Europe/Amsterdam", "America/New_York"].iter().enumerate() {
+                let (la, lo) = near(i);
+                t.push_str(&row(i, &la, &lo, tz));
+            }
+            t.into_bytes()
+        }
+        "empty" => vec![],
+        "header_only" => header.as_bytes().to_vec(),
+        "malformed_number" => format!("{header}{}{}", row(1, "35.1", "-80.1", "America/New_York"), row(2, "north", "-80.2", "America/New_York")).into_bytes(),
+        "short_row" => format!("{header}{}\"K002\",\"A02\",\"Field\"\n", row(1, "35.1", "-80.1", "America/New_York")).into_bytes(),
+        "not_utf8" => {
+            let mut v = header.as_bytes().to_vec();
+            v.extend_from_slice(b"\"K001\",\"A01\",\"Fi\xff\xfeld\",\"Town\",\"State\",\"US\",10.0,35.1,-80.1,\"America/New_York\"\n");
+            v
+        }
+        _ => vec![],
+    };
+    match kind {
+        "missing" => "no-such-airports.csv".to_string(),
+        // the log folder: opening succeeds, reading fails (EISDIR)
+        "directory" => "logs".to_string(),
+        _ => {
+            std::fs::write(&path, body).unwrap_or_else(|e| simcore::harness_error(&format!("cannot write {}: {e}", path.display())));
+            "airports.csv".to_string()
+        }
+    }
 }
 
 fn default_rx() -> (f64, f64) {
@@ -118,7 +167,7 @@ pub const INVALID_CLI: [&[&str]; 18] = [
 pub fn generate(rng: &mut Rng, fault_free: bool) -> K17 {
     if !fault_free && rng.chance(0.08) {
         let a = *rng.pick(&INVALID_CLI);
-        return K17 { args: vec![], cols: 80, rows: 24, refused_first: 0, lines: vec![], events: vec![], quit_at_us: 100_000, quit_ctrl_c: false, proc_delay_us: vec![], reconnect_at_us: None, invalid_cli: Some(a.iter().map(|s| s.to_string()).collect()), rx: (35.0, -80.0), sweep: 0, compass: 0, ev_delay_us: vec![], gpsd: None };
+        return K17 { args: vec![], cols: 80, rows: 24, refused_first: 0, lines: vec![], events: vec![], quit_at_us: 100_000, quit_ctrl_c: false, proc_delay_us: vec![], reconnect_at_us: None, invalid_cli: Some(a.iter().map(|s| s.to_string()).collect()), rx: (35.0, -80.0), sweep: 0, compass: 0, ev_delay_us: vec![], gpsd: None, airports: None };
     }
     let (cols, rows) = if fault_free {
         *rng.pick(&[(80u16, 24u16), (120, 40)])
@@ -291,6 +340,13 @@ pub fn generate(rng: &mut Rng, fault_free: bool) -> K17 {
     } else {
         None
     };
+    let airports = if !fault_free && rng.chance(0.1) {
+        let kind = *rng.pick(&AIRPORT_KINDS);
+        let tz = if rng.chance(0.4) { Some((*rng.pick(&["America/New_York", "America/Chicago,Europe/Amsterdam", "Nowhere/Else", "", ","])).to_string()) } else { None };
+        Some((kind.to_string(), tz))
+    } else {
+        None
+    };
     // a session left alone: nothing from the operator and nothing new from the server for one to
     // five minutes of simulated time (every timer the client may own fires in that time)
     let long_quiet = !fault_free && rng.chance(0.012);
@@ -339,9 +395,9 @@ pub fn generate(rng: &mut Rng, fault_free: bool) -> K17 {
         let args: Vec<String> = args.into_iter().filter(|a| !a.starts_with("--filter-time") && a != "--retry-tcp" && !a.starts_with("--max-range") && a != "--limit-parsing").collect();
         let mut args = args;
         args.retain(|a| a != "--disable-heading");
-        return K17 { args, cols, rows, refused_first: 0, lines: vec![], events, quit_at_us, quit_ctrl_c: false, proc_delay_us: vec![], reconnect_at_us: None, invalid_cli: None, rx: (35.0, -80.0), sweep, compass, ev_delay_us: vec![], gpsd: None };
+        return K17 { args, cols, rows, refused_first: 0, lines: vec![], events, quit_at_us, quit_ctrl_c: false, proc_delay_us: vec![], reconnect_at_us: None, invalid_cli: None, rx: (35.0, -80.0), sweep, compass, ev_delay_us: vec![], gpsd: None, airports: None };
     }
-    K17 { args, cols, rows, refused_first, lines, events, quit_at_us, quit_ctrl_c: rng.chance(0.3), proc_delay_us, reconnect_at_us, invalid_cli: None, rx: RX, sweep: 0, compass: 0, ev_delay_us, gpsd }
+    K17 { args, cols, rows, refused_first, lines, events, quit_at_us, quit_ctrl_c: rng.chance(0.3), proc_delay_us, reconnect_at_us, invalid_cli: None, rx: RX, sweep: 0, compass: 0, ev_delay_us, gpsd, airports }
 }
 
 pub fn compile(sc: &K17) -> KChild {
@@ -459,6 +515,14 @@ pub fn execute(sc: &K17) -> Outcome {
     args.extend(sc.args.iter().cloned());
     if sc.gpsd.is_some() {
         args.push("--gpsd".into());
+    }
+    if let Some((kind, tz)) = &sc.airports {
+        args.push("--airports".into());
+        args.push(prepare_airports(kind, sc.rx));
+        if let Some(tz) = tz {
+            args.push(format!("--airports-tz-filter={tz}"));
+        }
+        out.fault(if airports_is_usable(kind) { "airports_file" } else { "airports_file_unusable" });
     }
     let run = run_child(&Spec { exe: &exe("radar"), args, child: &child, tty: Some((sc.cols, sc.rows)), wall_limit: Duration::from_secs(if sc.sweep > 0 { 900 } else { 60 }) });
     let mut vt = Vt::new();
@@ -585,6 +649,30 @@ pub fn execute(sc: &K17) -> Outcome {
     if sc.args.iter().any(|a| a.starts_with("--filter-time=") && a != "--filter-time=120") && !sc.lines.is_empty() {
         out.probe("aircraft_expire_during_run");
     }
+    if let Some((kind, _)) = sc.airports.as_ref().filter(|(k, _)| !airports_is_usable(k)) {
+        // a file radar cannot use is an invalid command-line value: radar may refuse to start
+        // (an error message, a non-zero status, the terminal as it was found) or go on without
+        // the airports — it must not crash. Going on is judged like every other run below.
+        let r = &p.run;
+        if let Some(loc) = panic_location(&r.stderr) {
+            out.violate(format!("C17:invalid-option-value-panics:{loc}"), format!("radar --airports <{kind}> panicked instead of reporting the unusable file (exit status {:?}, terminal restored: {:?}, mouse reporting left on: {:?})\nstderr:\n{}", r.code, r.termios_restored, p.vt.modes.mouse_modes_on, r.stderr.lines().take(6).collect::<Vec<_>>().join("\n")));
+            return out;
+        }
+        if quit_seen_at.is_none() && !r.wall_timeout && matches!(r.code, Some(1) | Some(2)) && !r.stderr.trim().is_empty() && !p.log.iter().any(|l| matches!(l, LogEv::Budget | LogEv::Stop { .. })) {
+            if r.termios_restored == Some(false) {
+                out.violate("C17:terminal-not-restored:termios", format!("radar refused --airports <{kind}> but left the terminal modes changed: {}", r.termios_diff));
+            } else if !p.vt.modes.cursor_visible {
+                out.violate("C17:terminal-not-restored:cursor-hidden", format!("radar refused --airports <{kind}> but left the cursor hidden"));
+            } else if !p.vt.modes.mouse_modes_on.is_empty() {
+                out.violate("C17:terminal-not-restored:mouse-reporting-on", format!("radar refused --airports <{kind}> but left mouse reporting on: {:?}", p.vt.modes.mouse_modes_on));
+            } else if p.vt.modes.alt_screen {
+                out.violate("C17:terminal-not-restored:alternate-screen", format!("radar refused --airports <{kind}> but stayed in the alternate screen"));
+            } else {
+                out.probe("unusable_airports_file_reported");
+            }
+            return out;
+        }
+    }
     end_of_run_checks("C17", &p, &mut out, true);
     if out.violation.is_some() {
         return out;
@@ -641,6 +729,12 @@ pub fn shrink(sc: &K17) -> Vec<K17> {
     }
     if !sc.ev_delay_us.is_empty() {
         c.push(K17 { ev_delay_us: vec![], ..sc.clone() });
+    }
+    if let Some((kind, tz)) = &sc.airports {
+        c.push(K17 { airports: None, ..sc.clone() });
+        if tz.is_some() {
+            c.push(K17 { airports: Some((kind.clone(), None)), ..sc.clone() });
+        }
     }
     if let Some((refused, fixes)) = &sc.gpsd {
         c.push(K17 { gpsd: None, ..sc.clone() });
